@@ -309,7 +309,8 @@ Section Proofs.
     walk_roots B blen parse st fuel = Some ([], used) ->
     forall r, In r (st_roots st) -> exists ps, walk fuel r = Some ([], ps) /\ incl ps used.
   Proof.
-    unfold walk_roots. revert used. induction (st_roots st) as [|x l IH]; intros used H r Hr; [contradiction|].
+    unfold walk_roots. change (checked_roots B st) with (st_roots st).
+    revert used. induction (st_roots st) as [|x l IH]; intros used H r Hr; [contradiction|].
     simpl in H.
     match type of H with context [fold_right ?F ?A l] => destruct (fold_right F A l) as [[es ps']|] eqn:Ef end; [|discriminate].
     destruct (walk fuel x) as [[e1 p1]|] eqn:Ew; [|discriminate].
@@ -322,7 +323,7 @@ Section Proofs.
 
   Lemma root_packs_in r p b : In r (st_roots st) -> lookup BTree r = Some (p, b) -> In p (root_packs B st).
   Proof.
-    intros Hr Hl. unfold root_packs. apply in_flat_map. exists r. split; [assumption|].
+    intros Hr Hl. unfold root_packs. change (checked_roots B st) with (st_roots st). apply in_flat_map. exists r. split; [assumption|].
     rewrite Hl. left. reflexivity.
   Qed.
 
